@@ -38,9 +38,9 @@ ASSUMPTIONS = [
 ]
 
 BOHR = 1.8897261246257702
-MOLS = {
-    "H": ([1], [[0.0, 0.0, 0.0]]),
+MOLS = {   # the first entry is the baseline of the deviation-bounded product: heteronuclear on purpose
     "CO": ([6, 8], [[0.0, 0.0, -1.1], [0.0, 0.1, 1.05]]),
+    "H": ([1], [[0.0, 0.0, 0.0]]),
     "HCl": ([17, 1], [[0.2, 0.0, 0.0], [0.2, 0.3, 2.4]]),
     "H2O": ([8, 1, 1], [[0.0, 0.0, 0.2], [0.0, 1.43, -0.9], [0.1, -1.43, -0.9]]),
     "CH2O": ([6, 8, 1, 1], [[0.0, 0.0, 0.0], [0.0, 0.0, 2.3], [0.0, 1.8, -1.0], [0.3, -1.7, -1.1]]),
@@ -240,6 +240,66 @@ def structural(ctx):
     ctx.cov["structural_configurations"] = len(allc)
 
 
+# ------------------------------------------------------------------------------ E1: per-atom views
+_VIEW_REF = {}
+
+
+class ViewWorld:
+    """One MolGrid instance; events are the accessors that hand back per-atom grids / integrals.
+    Every observation must equal the one a fresh instance gives for the same single call (the
+    accessors must not influence each other).  Added after seeded change C07-B was missed."""
+
+    def __init__(self, seed, store=False, ctor="direct"):
+        self.seed, self.store, self.ctor = seed, store, ctor
+        self.mg = self._make()
+        self.violations = []
+        self.calls = []
+
+    def _make(self):
+        return _build(("H2O", self.ctor, "one", "becke", self.store, 0), self.seed)[0]
+
+    def enabled(self):
+        evs = [("get", 0), ("get", 2), ("item", 0), ("item", 2), ("integrate",), ("weights",)]
+        if self.store:
+            evs.append(("interp",))
+        return evs
+
+    def _observe(self, mg, ev):
+        with warnings.catch_warnings():
+            warnings.simplefilter("ignore")
+            if ev[0] == "get":
+                g = mg.get_atomic_grid(ev[1])
+                return [np.asarray(g.points).tobytes(), np.asarray(g.weights).tobytes()]
+            if ev[0] == "item":
+                g = mg[ev[1]]
+                return [np.asarray(g.points).tobytes(), np.asarray(g.weights).tobytes()]
+            if ev[0] == "integrate":
+                return [float(mg.integrate(np.exp(-np.sum(mg.points**2, axis=1)))).hex()]
+            if ev[0] == "weights":
+                return [np.asarray(mg.weights).tobytes(), np.asarray(mg.atweights).tobytes(), np.asarray(mg.aim_weights).tobytes()]
+            f = np.exp(-np.sum(mg.points**2, axis=1))
+            return [np.asarray(mg.interpolate(f)(np.array([[0.1, 0.2, 0.3], [0.0, 1.0, -0.5]]))).tobytes()]
+
+    def apply(self, ev):
+        import hashlib
+
+        obs = self._observe(self.mg, ev)
+        key = (self.store, self.ctor, self.seed, tuple(ev))
+        if key not in _VIEW_REF:
+            _VIEW_REF[key] = self._observe(self._make(), ev)
+        if obs != _VIEW_REF[key]:
+            self.violations.append((f"views:{ev[0]}:depends-on-earlier-accessor-calls",
+                                    f"{ev} after {self.calls} on the same MolGrid(store={self.store}) differs from the same call on a "
+                                    f"fresh instance", {}))
+        self.calls.append(tuple(ev))
+        return hashlib.sha1(b"".join(o if isinstance(o, bytes) else o.encode() for o in obs)).hexdigest()[:12]
+
+    def canon(self):
+        """Which accessors have been used (as a set: repeated calls of one accessor are idempotent
+        observations) -- the only thing a hidden per-atom cache could key on."""
+        return (self.store, self.ctor, tuple(sorted(set(self.calls))))
+
+
 # ------------------------------------------------------------------------------ end to end
 E2E_MOLS = {
     "H": ([1], [[0.0, 0.0, 0.0]]),
@@ -306,6 +366,12 @@ def run(ctx):
     from vf.props.c05 import PRESETS
 
     ctx.guarded("structural", structural, ctx)
+    from vf import explore
+
+    for store in (False, True):
+        st = explore.explore(ctx, "vf.props.c07:ViewWorld", 3 if not ctx.thorough else 4, params={"store": store, "ctor": "direct"},
+                             twice_every=7, fresh_every=0, section="per-atom-views")
+        ctx.cov.setdefault("view_exploration", []).append({k: st[k] for k in ("states", "transitions", "depth_completed")})
     jobs = [(p, m, ctx.seed) for p in PRESETS for m in E2E_MOLS]
     jobs.sort(key=lambda j: -(PRESETS.index(j[0]) in (5, 16, 15, 4)) * 10 - len(E2E_MOLS[j[1]][0]))
     for res in lattice.pmap_unordered(_e2e_case, jobs, ctx.workers):
@@ -320,6 +386,10 @@ def run(ctx):
 def replay(ctx, case):
     if case.get("route") == "e2e":
         ctx.merge(_e2e_case((case["preset"], case["molecule"], ctx.seed)))
+    elif "history" in case:
+        from vf import explore
+
+        explore.replay_history(ctx, case)
     elif case.get("route") == "structure":
         out = _struct_case((tuple(case["cfg"]), ctx.seed))
         ctx.merge(out[0] if isinstance(out, tuple) else out)
